@@ -1438,13 +1438,13 @@ func crashChildMain() {
 // finding C16-startworkconn-addr-nil; witnesses: the `swc` ops).  Until hooks/C16-fix-startworkconn-addr.patch is in /repo
 // the scripted server of `cstorm` sends resolvable addresses only, otherwise every cstorm would end at the same place.
 // Set to true together with Crash.startWorkAddrIsFixed.
-const crashPPAddrsInStorms = false
+const crashPPAddrsInStorms = true
 
 // A user datagram read just before a udp proxy closes kills the unrepaired frps (KNOWN finding C16-udp-forward-send-closed;
 // witness: harness/corpus/crash/udp-forward-send.ops).  Until hooks/C16-fix-udp-forward-send.patch is in /repo the generator
 // does not flood closing UDP proxies (`closerace … udp`), otherwise every run would end there.  Set to true together with
 // Crash.udpForwardSendIsFixed.
-const crashUDPRaceInStorms = false
+const crashUDPRaceInStorms = true
 
 // Negative pool counts kill the unrepaired frps (KNOWN finding C16-poolcount-negative; witnesses `login … -11`,
 // `negpool … -1`).  Until hooks/C16-fix-poolcount.patch is in /repo the RANDOM part of the generator and the
